@@ -101,7 +101,7 @@ CONF = {
         "rule": "cases = concurrent scenarios with 1-4 client goroutines in 1-2 phases whose operations are ~50% Progress.Write calls with unique newline-terminated payloads (0-40 byte bodies) issued from a buffer that is overwritten after the call returns, racing with render cycles (real ticker, injected ticks, manual), completions, cancel/Shutdown (35%), the final render and Wait; plus 0-3 writes after Wait; non-trivial = >=1 successful write that overlapped a render cycle by event numbers, or a write that lost the race with the done event; distinct by FNV-64 of the scenario JSON",
         "assumptions": GO_ASSUME + SCHED_ASSUME + ["one output Write call = one frame; occurrences are searched in the concatenation of all chunks", "for manual refresh a successful write may stay unflushed when the program requests no further frame (the statement is about containers that refresh themselves)", "hangs are left to C01"],
         "tiers": tiers(8, 1500, 16, 20000),
-        "require_classes": ["refresh:autort", "refresh:autoinj", "refresh:manual", "write-overlaps-render", "write-errdone", "writes>=2", "cancelled", "late-write"],
+        "require_classes": ["refresh:autort", "refresh:autoinj", "refresh:manual", "write-overlaps-render", "write-errdone", "writes>=2", "cancelled", "late-write", "repeated-payload"],
     },
     "C15": {
         "rule": "cases = fault plans: the k-th Fill of one bar, the k-th extender call of one bar, the k-th output Write (error or short write) or the k-th terminal-size query (pty) fails, k in 1..4 (half of the cases, so every site kind x small k is covered many times over) or 1..12; 1-6 bars with 0-2 synchronised decorators per side in every layout, slow decorators and directed holds between width exchange and flush, manual / injected auto / real ticker refresh, n<=q and n>q; non-trivial = the fault fired while >=2 bars carry synchronised decorators; distinct by FNV-64 of the scenario JSON",
